@@ -35,13 +35,17 @@ def analyse(spec, pc_directed=True):
     for key in pi:
         adj[("vn",) + key] = set()
     roots = set()
+    oos_feeder_junctions = set()
     ambiguous = None
     for o in ops:
         k = o["op"]
         if k == "ext_grid" and o.get("in_service", True) and o.get("type", "pt") in ("p", "pt", "auto"):
             if not jins[o["junction"]]:
-                ambiguous = "pressure-fixing ext_grid in service on an out-of-service junction"
-            roots.add(o["junction"])
+                # an out-of-service junction is deleted together with what hangs on it: its feeder supplies nothing.
+                # (Ambiguous only where the junction is re-activated because another feeder reaches it, see below.)
+                oos_feeder_junctions.add(o["junction"])
+            else:
+                roots.add(o["junction"])
         if k in ("circ_pump_mass", "circ_pump_pressure") and o.get("in_service", True):
             if not jins[o["flow"]]:
                 ambiguous = "circulation pump in service on an out-of-service flow junction"
@@ -79,6 +83,8 @@ def analyse(spec, pc_directed=True):
             continue
         supplied.add(x)
         stack.extend(adj[x] - supplied)
+    if oos_feeder_junctions & supplied:
+        ambiguous = "pressure-fixing ext_grid in service on an out-of-service junction that another feeder reaches"
     # thermal supply: reachable from an in-service temperature-fixing feeder through hydraulically active branches
     # (prescribed-flow elements carry fluid and therefore temperature, although they do not pass pressure)
     troots = set()
